@@ -53,9 +53,12 @@ def pipeline_specs(draw, i):
             "deco_kwargs": draw(st.sampled_from([None, None, {"slots": True}, {"frozen": True}, {"eq": False},
                                                  {"frozen": True, "slots": True}, {"order": True}]))}
     # a field whose strings are of different pseudo-types (resolution of pseudo-types runs for it)
-    mix = draw(st.sampled_from([["1", "2.5"], ["true", "7"], ["1", "2"], ["2018-01-02", "12:30"], ["x", "1.5", "3"], ["false", "true"]]))
+    mix = draw(st.sampled_from([["1", "2.5"], ["true", "7"], ["1", "2"], ["2018-01-02", "12:30"], ["x", "1.5", "3"], ["false", "true"],
+                                # time strings that the date parser accepts only with a warning (unknown time zone names)
+                                ["10:30 EST", "11:45 PST"], ["10:30 EST", "12:30"]]))
     samples = list(samples) + [{"mix": mix}, {"mix": list(reversed(mix))}]
-    return {"samples": rename(samples, "_p%d" % i), "opts": opts, "kind": draw(st.sampled_from(["library", "library", "library", "cli"]))}
+    return {"samples": rename(samples, "_p%d" % i), "opts": opts, "kind": draw(st.sampled_from(["library", "library", "library", "cli"])),
+            "cli_output": draw(st.booleans())}
 
 
 @st.composite
@@ -125,7 +128,15 @@ def job(spec, path=None, datetime_=False):
             from json_to_models.cli import Cli
             from .c16 import split_header
             cli = Cli()
-            cli.parse_args(cli_argv(spec, path, datetime_))
+            argv = cli_argv(spec, path, datetime_)
+            if spec.get("cli_output"):
+                # -o FILE: the command writes the module itself (also from a thread that is not the main thread)
+                out = path + ".out.py"
+                cli.parse_args(argv + ["-o", out])
+                cli.run()
+                with open(out, encoding="utf-8") as f:
+                    return split_header(f.read())[1]
+            cli.parse_args(argv)
             return split_header(cli.run())[1]
         return run_cli
 
